@@ -1,5 +1,7 @@
 import Driver.Codec
 import Driver.Topics
+import Driver.Tx
+import Driver.Util
 
 open Driver
 
@@ -12,6 +14,29 @@ partial def loop (h : IO.FS.Stream) (out : IO.FS.Stream) (f : String → List St
   for r in res do out.putStrLn r
   loop h out f (n + 1) (nout + res.length)
 
+/-- case-structured suites: a header line followed by `> ...` implementation lines -/
+partial def caseLoop (h : IO.FS.Stream) (out : IO.FS.Stream) (f : String → List String → List String)
+    (cur : Option String) (acc : Array String) (n nout : Nat) : IO (Nat × Nat) := do
+  let line ← h.getLine
+  let flush : IO Nat := do
+    match cur with
+    | some hdr =>
+      let res := f hdr acc.toList
+      for r in res do out.putStrLn r
+      pure res.length
+    | none => pure 0
+  if line.isEmpty then
+    let k ← flush
+    return (n, nout + k)
+  let line := (line.dropRightWhile (fun c => c == '\n' || c == '\r'))
+  if line.startsWith ">" then
+    caseLoop h out f cur (acc.push line) n nout
+  else if line.startsWith "#" || line.isEmpty then
+    caseLoop h out f cur acc n nout
+  else
+    let k ← flush
+    caseLoop h out f (some line) #[] (n + 1) (nout + k)
+
 def main (args : List String) : IO UInt32 := do
   let stdin ← IO.getStdin
   let stdout ← IO.getStdout
@@ -23,6 +48,18 @@ def main (args : List String) : IO UInt32 := do
   | ["topics"] =>
     let (n, k) ← loop stdin stdout topicsLine 0 0
     stdout.putStrLn s!"SUMMARY topics lines={n} reports={k}"
+    return 0
+  | ["idseq"] =>
+    let (n, k) ← loop stdin stdout idseqLine 0 0
+    stdout.putStrLn s!"SUMMARY idseq lines={n} reports={k}"
+    return 0
+  | ["store"] =>
+    let (n, k) ← loop stdin stdout storeLine 0 0
+    stdout.putStrLn s!"SUMMARY store lines={n} reports={k}"
+    return 0
+  | ["tx"] =>
+    let (n, k) ← caseLoop stdin stdout txCase none #[] 0 0
+    stdout.putStrLn s!"SUMMARY tx cases={n} reports={k}"
     return 0
   | _ =>
     IO.eprintln "usage: bisq <suite>"
